@@ -686,8 +686,31 @@ def guards_at(body, bb, facts=None, inline=True, _depth=0):
                 ok = False
         if ok:
             res.append((s, d, c, v))
+    if _FRESH_GUARDS and facts is not None and _depth == 0:
+        # a condition checked before a write to the state it mentions is no fact after that write (rules/fresh.py)
+        from . import fresh
+        res = [g for g in res if fresh.guard_survives(facts, body, cfg, g[1], g[2], bb)]
     res = expand_short_circuit(body, facts, inline, res, _depth)
     return expand_discr_correlation(body, facts, inline, res, _depth)
+
+
+import os as _os
+import contextlib as _contextlib
+_FRESH_GUARDS = _os.environ.get("BYTES_SA_FRESH", "1") == "1"
+
+
+@_contextlib.contextmanager
+def allow_stale_guards():
+    """for a rule whose facts are *about the state at the time of the check* (A8 justifies a store by what held before the
+    function's earlier stores; C7 asks under which conditions a value was read): dominating conditions are used as they were
+    evaluated, also after a write to the fields they mention"""
+    global _FRESH_GUARDS
+    old = _FRESH_GUARDS
+    _FRESH_GUARDS = False
+    try:
+        yield
+    finally:
+        _FRESH_GUARDS = old
 
 
 def _deciding_defs(body, l, loc, field=None, depth=0):
@@ -1234,7 +1257,56 @@ def normalize_cmp(c, v):
 
 def relations_at(body, bb, facts=None, inline=True):
     rels = [normalize_cmp(c, v) for (_, _, c, v) in guards_at(body, bb, facts, inline)]
-    return one_bit_twins(expand_classifiers(body, facts or body.facts, rels))
+    return one_bit_twins(expand_classifiers(body, facts or body.facts, expand_ordering(expand_flag_phi(rels))))
+
+
+def expand_flag_phi(rels):
+    """a bool that is a literal on some paths and a computed test on exactly one other (`a || b` spliced in from a predicate: the flag is
+    `true` where a held, `b` elsewhere): knowing the flag to be v rules out the literal alternatives != v, so the remaining test had value v"""
+    out = list(rels)
+    for r in rels:
+        if not r or r[0] != "truth" or not (isinstance(r[1], tuple) and r[1] and r[1][0] == "phi" and len(r[1]) > 2):
+            continue
+        alts = r[1][1]
+        rest = [a for a in alts if not (isinstance(a, tuple) and a and a[0] == "const" and a[1] in (0, 1, True, False))]
+        consts = [a for a in alts if a not in rest]
+        if len(rest) == 1 and consts and all(int(bool(a[1])) != r[2] for a in consts):
+            t = ("truth", rest[0], r[2])
+            if t not in out:
+                out.append(t)
+    return out
+
+
+def expand_ordering(rels):
+    """`match a.cmp(&b) { Less => .., Equal => .., Greater => .. }` on integers: the arm taken is an order fact about a and b"""
+    out = list(rels)
+    for r in rels:
+        if not r or r[0] not in ("truth", "notin") or not (isinstance(r[1], tuple) and r[1] and r[1][0] == "discr"):
+            continue
+        c = r[1][1]
+        while isinstance(c, tuple) and c and c[0] in ("ref", "deref"):
+            c = c[1]
+        if not (isinstance(c, tuple) and c and c[0] == "call" and c[1].rsplit("::", 1)[-1] == "cmp" and "core::cmp::impls" in c[1] and len(c[2]) == 2):
+            continue
+        a, b = c[2]
+        a = a[1] if isinstance(a, tuple) and a and a[0] == "ref" else ("deref", a)
+        b = b[1] if isinstance(b, tuple) and b and b[0] == "ref" else ("deref", b)
+        def norm(v):
+            return -1 if v in (-1, 255, 0xFFFFFFFFFFFFFFFF, (1 << 128) - 1) else v
+        if r[0] == "truth":
+            v = norm(r[2])
+        else:
+            left = {-1, 0, 1} - {norm(x) for x in r[2]}
+            if len(left) != 1:
+                continue
+            v = left.pop()
+        if v == 1:
+            out.append(("lt", b, a))
+        elif v == 0:
+            out.append(("eq", a, b))
+        elif v == -1:
+            out.append(("lt", a, b))
+    return out
 
 
 def one_bit_twins(rels):
